@@ -39,7 +39,7 @@ TIERS = {
     'quick': dict(shards=8, cases=20, apps=14, kpoint_extra=3, max_pop=8,
                   algos=0.2, timeout_s=600),
     'thorough': dict(shards=16, cases=230, apps=20, kpoint_extra=3, max_pop=12,
-                     algos=0.3, timeout_s=3000, case_timeout_s=300),
+                     algos=0.3, timeout_s=5400, case_timeout_s=300),
 }
 RULE = ('case = one random search space (gen/spaces.random_space with floats, '
         'custom points, names, literals, conditional multi-choices, plus '
@@ -635,9 +635,19 @@ def views_of(d):
   return [plain_view(d.to_dict(**v)) for v in VIEWS]
 
 
-def check_dna(env, d, name, case, what='output'):
+class _Quiet:
+  """Stands in for ctx when a verdict is wanted without a violation record."""
+
+  def __init__(self, ctx):
+    self.counters = ctx.counters
+
+  def violation(self, *args):
+    return False
+
+
+def check_dna(env, d, name, case, what='output', report=True):
   """Membership + alignment of one DNA; returns None or the failed clause."""
-  ctx, c = env.ctx, env.ctx.counters
+  ctx, c = (env.ctx if report else _Quiet(env.ctx)), env.ctx.counters
   if not isinstance(d, pg.DNA):
     ctx.violation('not-a-dna', name, f'{what} {d!r} is not a pg.DNA', case)
     return 'not-a-dna'
@@ -754,6 +764,30 @@ def leaf_precondition(env, node, inputs, step):
   return None
 
 
+def mean_leaves_range(env, node, parents):
+  """True if, at some float point, the (weighted) mean of the parents'
+  in-range values computed in floating point lies outside the range."""
+  weights = (WEIGHTS[node['weights']](parents) if 'weights' in node
+             else [1.0] * len(parents))
+  values = {}
+  for p, w in zip(parents, weights):
+    for pt in G.walk(env.desc, p.to_numbers()):
+      if pt.elem['t'] == 'float':
+        values.setdefault(pt.id, (pt.elem, []))[1].append((w, pt.value))
+  for elem, vs in values.values():
+    if 'weights' in node:
+      num = den = 0.0
+      for w, v in vs:
+        num += w * v
+        den += w
+      mean = num / den
+    else:
+      mean = sum(v for _, v in vs) / len(vs)
+    if mean < elem['lo'] or mean > elem['hi']:
+      return True
+  return False
+
+
 def expected_count(node, inputs, step):
   """Documented number of outputs of a selector leaf."""
   op, m = node['op'], len(inputs)
@@ -849,6 +883,10 @@ class Run:
         if (leaf and node['op'] in ('recombinators.Uniform', 'recombinators.Sample')
             and node['where'] not in (None, 'ALL')):
           mech += ':partial-where'   # the filter may drop decision points
+        if (leaf and node['op'] in ('recombinators.Average',
+                                    'recombinators.WeightedAverage')
+            and mean_leaves_range(env, node, flat_in)):
+          mech += ':mean-leaves-range'
         self.fail('unexpected-exception', mech,
                   f'{show(node)} raised on inputs '
                   f'{[repr(x) for x in flat_in][:6]}:\n'
@@ -1097,7 +1135,9 @@ def apply_expression(ctx, env, rng, expr, idxs, step, case):
   # -- probed run
   unlisted_before = unlisted_count(ctx)
   run = Run(env, case)
+  ctx.label = 'build-operator'
   op1 = run.build(expr)
+  ctx.label = None
   seed_a, seed_b = rng.randrange(1 << 30), rng.randrange(1 << 30)
   pyrandom.seed(seed_a)
   status, out1 = 'ok', None
@@ -1127,7 +1167,9 @@ def apply_expression(ctx, env, rng, expr, idxs, step, case):
   if not single and (run.violated or any(tainted(ctx, l) for l in leaves(expr))):
     c['bare_runs_skipped_known'] += 1
     return summary
+  ctx.label = 'build-operator'
   op2 = build_bare(expr)
+  ctx.label = None
   if is_plain(op2):
     op2 = B.make_operation_compatible(op2)
   pyrandom.seed(seed_b)
@@ -1488,8 +1530,11 @@ def run_case(ctx, i):
   case['fitness'] = [repr(f) for f in env.fitness]
   c['cases'] += 1
   c['parents'] += len(env.pop)
-  for d in env.pop:                       # the parents themselves
-    check_dna(env, d, 'parent-construction', case, 'parent')
+  # The parents themselves: their construction is the subject of C11/C12; a
+  # case whose premise (valid, aligned parents) does not hold is not judged.
+  if any(check_dna(env, d, 'parent', case, 'parent', report=False) for d in env.pop):
+    c['cases_with_invalid_parents'] += 1
+    return
   napps = int(ctx.params['apps'])
   ops_seen, productive, samples = [], 0, []
   singles = list(SINGLE_OPS)
